@@ -8,7 +8,8 @@ import NeumannModel.Common.FramedLog
                                                 abort, complete_commit, complete_abort,
                                                 cleanup_timeouts, process_pending_aborts,
                                                 recover_from_wal, recover, get_pending_decisions,
-                                                force_resolve, truncate_wal})
+                                                force_resolve, truncate_wal},
+                                                LOCK_COUNTER / next_lock_handle)
   Every coordinator operation is "append these WAL records in this order, then change memory".
   Import-free apart from the shared framed log; total; executable.
 
@@ -17,7 +18,9 @@ import NeumannModel.Common.FramedLog
     * bitcode is opaque: the payload <-> entry mapping is a parameter (`ser` / `de`);
     * time is an explicit argument (`now`, epoch millis) of begin / cleanup / recover;
     * the cosine cross-shard conflict test of `record_vote` is an input bit;
-    * lock manager = list of (handle, tx); lock expiry is not modelled (C12);
+    * lock manager = list of (handle, tx); lock expiry is not modelled (C12); the process-wide
+      handle counter (`LOCK_COUNTER`) is a field of the coordinator state (one coordinator per
+      process) that a new process starts at 1; `u64` wrap-around of the counter is not modelled;
     * a WAL append fails only through the size limit (`WalConfig::max_size_bytes` with
       `auto_rotate = false`: `SizeLimitExceeded`) or rotates the file (`auto_rotate = true`:
       the records written so far leave the file `replay` reads); other I/O errors and the
@@ -240,7 +243,20 @@ structure Coord where
   pendingAborts : List (Nat × (String × List Nat)) := []
   locks : List (Nat × Nat) := []       -- lock manager: (handle, owning tx)
   log : List Entry := []                -- what `replay` of the WAL file returns
+  /-- `static LOCK_COUNTER: AtomicU64 = AtomicU64::new(1)` (distributed_tx.rs:403): the handle the
+      next `try_lock` of this process returns.  Process-wide; a new process starts at 1. -/
+  nextHandle : Nat := 1
   deriving Repr
+
+/-- `LOCK_HANDLE_HIGH_WATER = u64::MAX / 10 * 9` (distributed_tx.rs:406) -/
+def highWater : Nat := 18446744073709551615 / 10 * 9
+
+/-- `Iterator::max` -/
+def listMax : List Nat → Option Nat
+  | [] => none
+  | h :: t => match listMax t with
+    | none => some h
+    | some m => some (max h m)
 
 /-- answer of one call, already reduced to what the caller can observe -/
 inductive Res where
@@ -300,10 +316,16 @@ def Tx.allVoted (t : Tx) : Bool := t.parts.all (fun s => (mLookup s t.votes).isS
 /-- `tx.all_yes()` -/
 def Tx.allYes (t : Tx) : Bool := t.votes.all (fun p => p.2.isYes)
 
-/-- a successful `LockManager::try_lock` (C12 models the lock table itself): handle `h` now
-    belongs to `tx` -/
+/-- a successful `LockManager::try_lock` that returned handle `h` (C12 models the lock table
+    itself): the handle now belongs to `tx`, and — `next_lock_handle` is
+    `LOCK_COUNTER.fetch_add(1)` — the counter stands at `h + 1`.  In the code `h` is the value of
+    the counter (`h = c.nextHandle`, see `tryLock`); the correspondence streams that label handles
+    by their rank pass the label instead and never look at the counter. -/
 def lockAcquire (c : Coord) (tx h : Nat) : Coord × Res :=
-  ({ c with locks := (h, tx) :: c.locks }, .ok)
+  ({ c with locks := (h, tx) :: c.locks, nextHandle := h + 1 }, .ok)
+
+/-- `LockManager::try_lock` on free keys: the handle is the value of the counter -/
+def tryLock (c : Coord) (tx : Nat) : Coord × Res := lockAcquire c tx c.nextHandle
 
 /-- `begin` (distributed_tx.rs:1240): limit check, TxBegin logged, then inserted; a failed WAL
     write leaves the transaction out of `pending` -/
@@ -425,8 +447,33 @@ def restoreTx (r : RecTx) (ph : Phase) (now : Nat) : Tx :=
 def restoreAll (rs : List RecTx) (ph : Phase) (now : Nat) (pending : List (Nat × Tx)) : List (Nat × Tx) :=
   rs.foldl (fun m r => mInsert r.tx (restoreTx r ph now) m) pending
 
+/-- the lock handles `recover_from_wal` finds in the recovery state: the YES votes of every
+    recovered transaction and the orphaned locks (distributed_tx.rs:1160-1170) -/
+def Recovery.handles (st : Recovery) : List Nat :=
+  (st.prepared ++ st.committing ++ st.aborting).flatMap (fun r => yesHandles r.votes)
+    ++ st.orphaned.map (·.2)
+
+/-- `max_logged_handle` and `LOCK_COUNTER.fetch_max(handle + 1)` (distributed_tx.rs:1156-1175):
+    the counter moves past every handle below the high-water mark that the recovery state carries -/
+def bumpCounter (n : Nat) (st : Recovery) : Nat :=
+  match listMax (st.handles.filter (fun h => decide (h < highWater))) with
+  | some h => max n (h + 1)
+  | none => n
+
 /-- `recover_from_wal` (distributed_tx.rs:1148) -/
 def recoverFromWal (c : Coord) (now : Nat) : Coord × Res :=
+  let st := fromEntries c.log
+  let p := restoreAll st.prepared .prepared now c.pending
+  let p := restoreAll st.committing .committing now p
+  let p := restoreAll st.aborting .aborting now p
+  ({ c with pending := p, locks := releaseAll (st.orphaned.map (·.2)) c.locks,
+            nextHandle := bumpCounter c.nextHandle st },
+   .recovered st.prepared.length st.committing.length st.aborting.length st.orphaned.length)
+
+/-- `recover_from_wal` before "fix: recovery moves the lock-handle counter past every handle it
+    restores" (0358827a): the counter of the new process stayed where it was.  Kept only for the
+    `_witness` theorem. -/
+def recoverFromWalOld (c : Coord) (now : Nat) : Coord × Res :=
   let st := fromEntries c.log
   let p := restoreAll st.prepared .prepared now c.pending
   let p := restoreAll st.committing .committing now p
@@ -480,9 +527,14 @@ def forceResolve (c : Coord) (id : Nat) (commitIt : Bool) : Coord × Res :=
       ({ c with locks := releaseAll (voteHandles tx.votes) c.locks, pending := mErase id c.pending }, .ok)
 
 /-- a new process: `DistributedTxCoordinator::new(cfg).with_wal(TxWal::open(path))` over a file
-    whose replay yields `es`, followed by `recover_from_wal` -/
+    whose replay yields `es`, followed by `recover_from_wal`.  The handle counter of the new
+    process starts at 1 again. -/
 def restartLog (cfg : Cfg) (es : List Entry) (now : Nat) : Coord :=
   (recoverFromWal { cfg := cfg, log := es } now).1
+
+/-- the restart before 0358827a (see `recoverFromWalOld`) -/
+def restartLogOld (cfg : Cfg) (es : List Entry) (now : Nat) : Coord :=
+  (recoverFromWalOld { cfg := cfg, log := es } now).1
 
 /-- restart on raw file bytes: `TxWal::open` cuts the torn tail, replay, recover.
     `none` = `recover_from_wal` returned `Err` (checksum mismatch). -/
